@@ -239,7 +239,8 @@ func randLegacy(r *c.Rng, side string) Case {
 				// never matches: a no-op on the request side and on the early response
 				k.Remedies = append(k.Remedies, Remedy{Kind: "retry", Cooldown: 1, From: 700, To: 700})
 			default:
-				k.Remedies = append(k.Remedies, Remedy{Kind: "account", Tokens: smallMap(r.Intn(9))})
+				// token header names: abstract or special (authorization, host, x-lunar-* ...)
+				k.Remedies = append(k.Remedies, Remedy{Kind: "account", Tokens: someFamily(r, i+n).m(r.Intn(9))})
 			}
 		}
 		return k
@@ -250,7 +251,7 @@ func randLegacy(r *c.Rng, side string) Case {
 		case 0:
 			k.Remedies = append(k.Remedies, Remedy{Kind: "fixed", Status: 418})
 		case 1:
-			k.Remedies = append(k.Remedies, Remedy{Kind: "account", Tokens: smallMap(r.Intn(9))})
+			k.Remedies = append(k.Remedies, Remedy{Kind: "account", Tokens: someFamily(r, i+n).m(r.Intn(9))})
 		default:
 			// a firing retry remedy sets the status seen by the next ones to 0
 			rg := c.Pick(r, [][2]int{{0, 599}, {400, 599}, {0, 0}, {429, 429}, {500, 599}})
